@@ -337,6 +337,8 @@ class Fn:
             if not rest and (tail is None or self.terminal([s])):
                 # the function ends in this if
                 return self.if_(s, lambda b: self.block(b, tail))
+            if any(isinstance(n, ast.Return) for n in ast.walk(s)):
+                raise Unsupported(s, 'return inside an if that does not end the function')
             names = self.assigned([s])
             if len(names) > 1:
                 raise Unsupported(s, 'an if assigning more than one local (%s)' % ', '.join(names))
@@ -354,6 +356,8 @@ class Fn:
         if isinstance(s, ast.For):
             if s.orelse or not isinstance(s.target, ast.Name):
                 raise Unsupported(s, 'for outside the subset')
+            if any(isinstance(n, (ast.Return, ast.Break, ast.Continue)) for n in ast.walk(s)):
+                raise Unsupported(s, 'return / break / continue inside a for')
             names = self.assigned(s.body)
             if len(names) != 1 or names[0] not in self.locals:
                 raise Unsupported(s, 'a for must update exactly one existing local')
